@@ -232,8 +232,8 @@ func (p *Position) GameOver() (over bool, winner Color) {
 		return true, p
 	}
 
-	if (p.whiteStones+p.whiteCaps) != 0 &&
-		(p.blackStones+p.blackCaps) != 0 &&
+	if (p.whiteStones != 0 || p.whiteCaps != 0) &&
+		(p.blackStones != 0 || p.blackCaps != 0) &&
 		(p.White|p.Black) != p.cfg.c.Mask {
 		return false, NoColor
 	}
